@@ -766,20 +766,18 @@ theorem derived_key_ec_wrapped (tok : Token) (path : String) (slot h : Nat) (xy 
     · split at hk
       · right; simpa using hk.symm
       · simp at hk
-  have hun : ecUnwrap (4 :: UInt8.ofNat k :: 4 :: xy) = 4 :: xy := by
-    unfold ecUnwrap
-    have : (4 :: UInt8.ofNat k :: 4 :: xy).length - 2 = k := by simp; omega
-    rw [this]
-    simp
+  have hun : ecUnwrap (4 :: UInt8.ofNat k :: 4 :: xy) = 4 :: xy :=
+    ecUnwrapWith_wrapped _ xy k hk' hxy
   refine ⟨?_, by simp; omega, hk'⟩
   rw [derived_key_ec tok path slot h _ params ha (by simp; omega) s,
     ecDerive_of_length _ params k hk (by rw [hun]; simp; omega), hun]
 
 /-- **EC, bare point** (`04 x y` of 65 / 97 octets, not of the wrapped form): the derived key text is
     the base64 of the point as the token gave it, first octet included.  (The code does not look at
-    the first octet of a bare point; and a bare point whose 2nd and 3rd octets happen to be
-    `len−2, 04` is mistaken for a wrapped one — excluded here by `hbare`, rejected by
-    `derived_key_ec_wrong_length`.) -/
+    the first octet of a bare point.  Holds under either unwrap rule.  A bare point whose 2nd and 3rd
+    octets happen to be `len−2, 04` — X starts `3f 04` / `5f 04` — is excluded here by `hbare`: the
+    pinned rule mistakes it for a wrapped one and refuses it (finding F24), the repaired rule takes it as
+    it is; see "The unwrap rule" below and `derived_key_ec_bare_current_tree`.) -/
 theorem derived_key_ec_bare (tok : Token) (path : String) (slot h : Nat) (point params : Bytes) (k : Nat)
     (hk : ecPointOctets params = some k) (hl : point.length = k)
     (hbare : point.take 3 ≠ [4, UInt8.ofNat (point.length - 2), 4])
@@ -793,9 +791,167 @@ theorem derived_key_ec_bare (tok : Token) (path : String) (slot h : Nat) (point 
     · split at hk
       · right; simpa using hk.symm
       · simp at hk
-  have hun : ecUnwrap point = point := by unfold ecUnwrap; rw [if_neg hbare]
+  have hun : ecUnwrap point = point := ecUnwrapWith_of_not_prefix _ point hbare
   rw [derived_key_ec tok path slot h _ params ha (by omega) s,
     ecDerive_of_length _ params k hk (by rw [hun]; exact hl), hun]
+
+/-! ## The unwrap rule: what tells a bare point from a wrapped one (finding F24)
+
+The token returns CKA_EC_POINT either bare (`04 x y`, 65 / 97 octets for P-256 / P-384) or as a DER OCTET
+STRING (`04 (1+2n) 04 x y`, 67 / 99 octets).  By PKCS#11 / SEC 1 the curve's point size decides which.  The
+code's rule is tabulated from the tree by execution (`KskmGen.ecUnwrapChecksLength`); `ecUnwrapWith` /
+`ecDeriveWith` (Kskm/Hsm.lean, Lemmas/Hsm.lean) are the rule and the EC branch for either value, and
+`derived_key_ec` + `ecDerive_eq_with` tie them to `p11ObjectToPublicKey` at the value of the current tree.
+  * repaired rule (`true`): EVERY string of the curve's point size is taken as it is
+    (`ec_bare_any_octets_repaired`), a wrapped point gives its inner octets (`ec_wrapped_either_rule`);
+  * pinned rule (`false`): a bare point that starts with the three octets of a wrapper of itself is refused
+    (`ec_bare_refused_pinned`, witness `ec_bare_refused_pinned_witness`: the P-256 key d = 20220);
+  * `derived_key_ec_bare_current_tree` states whichever applies to the tree in /repo now, about
+    `p11ObjectToPublicKey` itself. -/
+
+/-- the bare point `04 ‖ X ‖ Y` of the P-256 key with private scalar d = 20220: X starts `3f 04`, so the 65
+    octets start `04 3f 04` — tag, length 65 − 2, inner 04 of a DER wrapper of the string itself -/
+def f24BarePoint : Bytes :=
+  [0x04, 0x3f, 0x04, 0x19, 0xf4, 0x7d, 0x59, 0x77, 0x28, 0xf6, 0x61, 0x0f, 0x15, 0xa2, 0x28, 0xd2,
+   0x43, 0x1f, 0x53, 0x8c, 0x9a, 0xf6, 0x2a, 0xf5, 0x7b, 0x7e, 0x65, 0xcb, 0xd9, 0x3b, 0x83, 0xf6,
+   0x92, 0x29, 0x63, 0x13, 0x47, 0x24, 0xf2, 0x9e, 0x39, 0x3b, 0x02, 0xe6, 0xed, 0xa8, 0x38, 0xae,
+   0x2b, 0x7f, 0x8f, 0xa6, 0xdb, 0x34, 0xc3, 0x81, 0x83, 0x80, 0xda, 0xc4, 0x4b, 0x4f, 0xad, 0x9d,
+   0xf0]
+
+/-- **Repaired rule: the point size decides.**  For P-256 / P-384 EVERY string of 65 / 97 octets —
+    whatever its octets, `04 3f 04 …` / `04 5f 04 …` included — is taken as the bare point itself: the
+    derived key text is the base64 of the string as it is (its first octet kept: finding F4). -/
+theorem ec_bare_any_octets_repaired (point params : Bytes) (k : Nat)
+    (hk : ecPointOctets params = some k) (hl : point.length = k) :
+    ecDeriveWith true point params = .ok (some (Base64.encode point)) := by
+  have hk' : k = 65 ∨ k = 97 := by
+    unfold ecPointOctets at hk
+    split at hk
+    · left; simpa using hk.symm
+    · split at hk
+      · right; simpa using hk.symm
+      · simp at hk
+  have hun : ecUnwrapWith true point = point :=
+    ecUnwrapWith_true_of_point_length point (by omega)
+  unfold ecPointOctets at hk
+  unfold ecDeriveWith
+  rw [hun]
+  split at hk
+  · rename_i h1
+    simp only [Option.some.injEq] at hk
+    simp only [h1, ↓reduceIte, hl, ← hk]
+    rfl
+  · split at hk
+    · rename_i h1 h2
+      simp only [Option.some.injEq] at hk
+      simp only [h2, ↓reduceIte, hl, ← hk]
+      rfl
+    · simp at hk
+
+/-- **Either rule: a wrapped point gives its inner octets.**  `04 k 04 x y` with k = 65 (P-256) / 97
+    (P-384) = 1 + |x y|, i.e. a string of 67 / 99 octets: the derived key text is the base64 of the inner
+    65 / 97 octets `04 x y`. -/
+theorem ec_wrapped_either_rule (b : Bool) (xy params : Bytes) (k : Nat)
+    (hk : ecPointOctets params = some k) (hxy : xy.length + 1 = k) :
+    ecDeriveWith b (4 :: UInt8.ofNat k :: 4 :: xy) params = .ok (some (Base64.encode (4 :: xy))) ∧
+    (4 :: UInt8.ofNat k :: 4 :: xy).length = k + 2 ∧ (4 :: xy).length = k ∧ (k = 65 ∨ k = 97) := by
+  have hk' : k = 65 ∨ k = 97 := by
+    unfold ecPointOctets at hk
+    split at hk
+    · left; simpa using hk.symm
+    · split at hk
+      · right; simpa using hk.symm
+      · simp at hk
+  have hun : ecUnwrapWith b (4 :: UInt8.ofNat k :: 4 :: xy) = 4 :: xy := ecUnwrapWith_wrapped b xy k hk' hxy
+  have hl : (4 :: xy).length = k := by simp; omega
+  refine ⟨?_, by simp; omega, hl, hk'⟩
+  unfold ecPointOctets at hk
+  unfold ecDeriveWith
+  rw [hun]
+  split at hk
+  · rename_i h1
+    simp only [Option.some.injEq] at hk
+    simp only [h1, ↓reduceIte, hl, ← hk]
+    rfl
+  · split at hk
+    · rename_i h1 h2
+      simp only [Option.some.injEq] at hk
+      simp only [h2, ↓reduceIte, hl, ← hk]
+      rfl
+    · simp at hk
+
+/-- **Pinned rule: F24.**  A BARE point of the curve's size (65 / 97 octets) that starts with the three
+    octets of a wrapper of itself — `04 3f 04` / `04 5f 04`: X starts `3f 04` / `5f 04`, one key in 65536 —
+    loses two octets and is refused with the size error: a legitimate key on the token is not found. -/
+theorem ec_bare_refused_pinned (point params : Bytes) (k : Nat)
+    (hk : ecPointOctets params = some k) (hl : point.length = k)
+    (h3 : point.take 3 = [4, UInt8.ofNat (k - 2), 4]) :
+    ecDeriveWith false point params = .error (.error .runtime) := by
+  have hk' : k = 65 ∨ k = 97 := by
+    unfold ecPointOctets at hk
+    split at hk
+    · left; simpa using hk.symm
+    · split at hk
+      · right; simpa using hk.symm
+      · simp at hk
+  have hun : ecUnwrapWith false point = point.drop 2 :=
+    ecUnwrapWith_false_of_prefix point (by rw [hl]; exact h3)
+  have hlen : (point.drop 2).length = k - 2 := by simp [hl]
+  unfold ecPointOctets at hk
+  unfold ecDeriveWith
+  rw [hun, hlen]
+  split at hk
+  · rename_i h1
+    simp only [Option.some.injEq] at hk
+    have : (k - 2 - 1) * 8 / 2 ≠ 256 := by omega
+    rw [if_pos h1, if_pos this]; rfl
+  · split at hk
+    · rename_i h1 h2
+      simp only [Option.some.injEq] at hk
+      have : (k - 2 - 1) * 8 / 2 ≠ 384 := by omega
+      rw [if_neg h1, if_pos h2, if_pos this]; rfl
+    · simp at hk
+
+/-- the witness: the 65-octet bare point `04 3f 04 …` of the real P-256 key d = 20220 is refused by the
+    pinned rule — and taken as it is by the repaired one -/
+theorem ec_bare_refused_pinned_witness :
+    f24BarePoint.length = 65 ∧ f24BarePoint.take 3 = [0x04, 0x3f, 0x04] ∧
+    ecDeriveWith false f24BarePoint ecOidP256 = .error (.error .runtime) ∧
+    ecUnwrapWith true f24BarePoint = f24BarePoint := by
+  refine ⟨by decide, by decide, by decide +kernel, by decide +kernel⟩
+
+/-- **The tree in /repo now** (the switch is tabulated from the code by execution on every run), about
+    `_p11_object_to_public_key` itself: with the repaired rule every object whose CKA_EC_POINT has the
+    curve's point size yields the base64 of these octets as they are, whatever they are; with the pinned
+    rule the P-256 key d = 20220, stored bare, ends in the runtime error (F24). -/
+theorem derived_key_ec_bare_current_tree :
+    if KskmGen.ecUnwrapChecksLength = true then
+      ∀ (tok : Token) (path : String) (slot h : Nat) (point params : Bytes) (k : Nat),
+        ecPointOctets params = some k → point.length = k → EcAnswers tok path slot h point params →
+        ∀ s, p11ObjectToPublicKey path slot h tok s =
+          (.ok (some (Base64.encode point)), afterEcReads path slot h point params s)
+    else
+      ∀ (tok : Token) (path : String) (slot h : Nat), EcAnswers tok path slot h f24BarePoint ecOidP256 →
+        ∀ s, p11ObjectToPublicKey path slot h tok s =
+          (.error (.error .runtime), afterEcReads path slot h f24BarePoint ecOidP256 s) := by
+  cases hsw : KskmGen.ecUnwrapChecksLength with
+  | true =>
+    simp only [↓reduceIte]
+    intro tok path slot h point params k hk hl ha s
+    have hk' : k = 65 ∨ k = 97 := by
+      unfold ecPointOctets at hk
+      split at hk
+      · left; simpa using hk.symm
+      · split at hk
+        · right; simpa using hk.symm
+        · simp at hk
+    rw [derived_key_ec tok path slot h _ params ha (by omega) s, ecDerive_eq_with, hsw,
+      ec_bare_any_octets_repaired point params k hk hl]
+  | false =>
+    simp only [Bool.false_eq_true, ↓reduceIte]
+    intro tok path slot h ha s
+    rw [derived_key_ec tok path slot h _ ecOidP256 ha (by decide) s, ecDerive_eq_with, hsw,
+      ec_bare_refused_pinned_witness.2.2.1]
 
 /-- **EC, unknown curve OID ⇒ runtime error** (no key text is made up). -/
 theorem derived_key_ec_unknown_curve (tok : Token) (path : String) (slot h : Nat) (point params : Bytes)
@@ -1087,6 +1243,12 @@ example : [0, 1, 2].Nodup ∧
 -- EC answers: a wrapped P-256 point meets the hypotheses of `derived_key_ec_wrapped`
 example : ecPointOctets ecOidP256 = some 65 ∧ (List.replicate 64 (7 : UInt8)).length + 1 = 65 := by
   decide
+-- the unwrap rule: the bare point of the real key d = 20220 meets the hypotheses of `ec_bare_any_octets_repaired`
+-- and of `ec_bare_refused_pinned` (P-256, 65 octets, starts 04 3f 04 with 0x3f = 65 − 2)
+example : ecPointOctets ecOidP256 = some 65 ∧ f24BarePoint.length = 65 ∧
+    f24BarePoint.take 3 = [4, UInt8.ofNat (65 - 2), 4] := by decide
+example : ecDeriveWith true f24BarePoint ecOidP256 = .ok (some (Base64.encode f24BarePoint)) :=
+  ec_bare_any_octets_repaired f24BarePoint ecOidP256 65 (by decide) (by decide)
 
 -- the keymaster's lookup on the same token: same key, same log (instance of `km_find_first`)
 example : ((Km.findInSlotsP exMod "K" ckoPublic none [0, 1, 2]).runTok exTok {}).1 =
